@@ -69,6 +69,8 @@ def make_scene(rnd, g, nfr, ns, nf):
 class C12(object):
     id = "C12"
     engine = "histsim+simomp"
+    time_keys = {"steps": "Engine A scheduler steps", "py_steps": "Engine B pre-emption points (source lines)", "virtual_seconds": "virtual seconds of the pipeline clock", "frames": "frames pushed through labelimage"}
+    fault_keys = ["switches", "realloc_moved", "realloc_stay", "alloc", "free", "parallel_runs", "eager_timer_runs", "pipeline_runs", "empty_frames"]
     tiers = {"quick": {"runs": 6000, "budget_s": 60, "selftest_every": 50, "fresh_selftest": 8},
              "thorough": {"runs": 600000, "budget_s": 800, "selftest_every": 300, "fresh_selftest": 16}}
     rule = ("one run = one frame history (1..40 frames of 4x4..32x32) through labelimage.peaksearch / output2dpeaks / "
